@@ -21,7 +21,7 @@ use std::{
 pub static DEF: PropDef = PropDef {
     id: "C04",
     level: "exploration",
-    total: |t| t.pick(64, 1600),
+    total: |t| t.pick(768, 25600),
     run,
     rule: "2..6 machines on one network, with or without ARP, 0..4 recording applications each, bindings drawn from {own address, another machine's address, 0.0.0.0, 255.255.255.255} x 4 ports (so exact/wildcard competition and repeated binds are frequent), 1..30 datagrams from random senders to (address, port) pairs over the same sets plus unbound ports, 127.0.0.1 and unclaimed addresses, payloads of 0, 1, MTU-28 and MTU-27 (must be refused) bytes, latency 0..5 ms so arrivals interleave. For every datagram the H4 hook tells which taps the frame reached; on each such machine (and on the sender itself for loopback) the expected receiver is computed by a reference rule (exact binding, else wildcard, else nobody) and compared with the demux events actually recorded, including payload, source/destination address and port in Control. Non-trivial = configuration with an exact/wildcard competition on one machine AND a datagram for which no binding exists; distinct by configuration hash.",
     assumptions: &[
